@@ -20,7 +20,8 @@ TOLERANCES = {"times": "< 1 ms on write, exact on read", "bpm / multiplier": "1e
 ASSUMPTIONS = ["PyYAML safe_load is the trusted YAML parser", "omitted Bpm / Multiplier: both circulating defaults (120 / 1.0 and 0) are accepted",
                "missing sections and an omitted Lane are outside the quantifier"]
 
-HOSTILE = ["a: b", "#hash", "'single'", '"double"', "- dash", "? q", " leading", "trailing ", "夜に駆ける", "yes", "null", "123", "1.5", "~", "", "a\tb", "[x]", "{y}", "@at", "%pct", "multi word title"]
+LONG = "A rather long title that the YAML dumper folds over several lines because it is well beyond eighty characters in total length, yes"
+HOSTILE = [LONG, "a: b", "#hash", "'single'", '"double"', "- dash", "? q", " leading", "trailing ", "夜に駆ける", "yes", "null", "123", "1.5", "~", "", "a\tb", "[x]", "{y}", "@at", "%pct", "multi word title"]
 CONV = {"osu": "OsuToQua", "sm": "SMToQua", "bms": "BMSToQua", "o2j": "O2JToQua"}
 
 
@@ -83,7 +84,7 @@ def gen(rng, tier, k):
         return dict(cls="doc:" + cls, text=gen_doc(rng, cls), as_lines=rng.random() < 0.3)
     if r < 0.8:
         spec = charts.gen_spec(rng, "qua")
-        if rng.random() < 0.3:
+        if rng.random() < 0.4:
             for ch in spec["charts"]:
                 for f in ("title", "artist", "creator", "description"):
                     ch["meta"][f] = rng.choice(HOSTILE)
